@@ -9,7 +9,7 @@ Local Open Scope ring_scope.
 
 Theorem C10_special_names_are_the_vocabularys_own_elements :
   forall (R : comRingType) al d (entries : seq (seq R)) s,
-    eval al d entries (ESpecial s) =
+    eval al d entries [::] [::] (ESpecial s) =
     match alg_element al
             (match s with SIdentity => EIdentity | SZeroEl => EZero | SAbsorbing => EAbsorbing end)
             d STwo with
@@ -22,49 +22,49 @@ Print Assumptions C10_special_names_are_the_vocabularys_own_elements.
 Theorem C10_number_is_multiple_of_the_vocabularys_identity :
   forall (R : comRingType) al d (entries : seq (seq R)) p q neg i,
     alg_element al EIdentity d STwo = Ok i ->
-    parse al d entries (ENum p q neg) = inr (sv_scale (signed R p neg) q%:R (of_scaled (wval i))).
+    parse al d entries [::] [::] (ENum p q neg) = inr (sv_scale (signed R p neg) q%:R (of_scaled (wval i))).
 Proof. first [exact: number_is_multiple_of_own_identity | by move=> *; exact: number_is_multiple_of_own_identity | by intros; eapply number_is_multiple_of_own_identity; eauto]. Qed.
 Print Assumptions C10_number_is_multiple_of_the_vocabularys_identity.
 
 Theorem C10_names_denote_entries :
   forall (R : comRingType) al d (entries : seq (seq R)) i,
-    (i < size entries)%N -> eval al d entries (EName i) = inr (VPtr (sv_plain (nth [::] entries i))).
+    (i < size entries)%N -> eval al d entries [::] [::] (EName i) = inr (VPtr (sv_plain (nth [::] entries i))).
 Proof. first [exact: name_is_entry | by move=> *; exact: name_is_entry | by intros; eapply name_is_entry; eauto]. Qed.
 Print Assumptions C10_names_denote_entries.
 
 Theorem C10_unknown_name_is_a_parse_error :
   forall (R : comRingType) al d (entries : seq (seq R)) i,
-    (size entries <= i)%N -> eval al d entries (EName i) = inl (PExn SpaParseError).
+    (size entries <= i)%N -> eval al d entries [::] [::] (EName i) = inl (PExn SpaParseError).
 Proof. first [exact: unknown_name_is_parse_error | by move=> *; exact: unknown_name_is_parse_error | by intros; eapply unknown_name_is_parse_error; eauto]. Qed.
 Print Assumptions C10_unknown_name_is_a_parse_error.
 
 Theorem C10_star_is_binding_in_the_vocabularys_algebra :
   forall (R : comRingType) al d (entries : seq (seq R)) a b x y,
-    eval al d entries a = inr (VPtr x) -> eval al d entries b = inr (VPtr y) ->
-    eval al d entries (EMul a b) = lift (sv_bind al x y).
+    eval al d entries [::] [::] a = inr (VPtr x) -> eval al d entries [::] [::] b = inr (VPtr y) ->
+    eval al d entries [::] [::] (EMul a b) = lift (sv_bind al x y).
 Proof. first [exact: mul_is_binding | by move=> *; exact: mul_is_binding | by intros; eapply mul_is_binding; eauto]. Qed.
 Print Assumptions C10_star_is_binding_in_the_vocabularys_algebra.
 
 Theorem C10_plus_is_superposition :
   forall (R : comRingType) al d (entries : seq (seq R)) a b x y,
-    eval al d entries a = inr (VPtr x) -> eval al d entries b = inr (VPtr y) ->
-    eval al d entries (EAdd a b) = match sv_add x y with inr z => inr (VPtr z) | inl er => inl er end.
+    eval al d entries [::] [::] a = inr (VPtr x) -> eval al d entries [::] [::] b = inr (VPtr y) ->
+    eval al d entries [::] [::] (EAdd a b) = match sv_add x y with inr z => inr (VPtr z) | inl er => inl er end.
 Proof. first [exact: add_is_superposition | by move=> *; exact: add_is_superposition | by intros; eapply add_is_superposition; eauto]. Qed.
 Print Assumptions C10_plus_is_superposition.
 
 Theorem C10_minus_is_plus_negation :
   forall (R : comRingType) al d (entries : seq (seq R)) a b x y,
-    eval al d entries a = inr (VPtr x) -> eval al d entries b = inr (VPtr y) ->
-    eval al d entries (ESub a b) = match sv_add x (sv_neg y) with inr z => inr (VPtr z) | inl er => inl er end.
+    eval al d entries [::] [::] a = inr (VPtr x) -> eval al d entries [::] [::] b = inr (VPtr y) ->
+    eval al d entries [::] [::] (ESub a b) = match sv_add x (sv_neg y) with inr z => inr (VPtr z) | inl er => inl er end.
 Proof. first [exact: sub_is_add_neg | by move=> *; exact: sub_is_add_neg | by intros; eapply sub_is_add_neg; eauto]. Qed.
 Print Assumptions C10_minus_is_plus_negation.
 
 Theorem C10_tilde_is_the_algebras_inverse :
   forall (R : comRingType) al d (entries : seq (seq R)) a x,
-    eval al d entries a = inr (VPtr x) ->
-    eval al d entries (EInv a) =
+    eval al d entries [::] [::] a = inr (VPtr x) ->
+    eval al d entries [::] [::] (EInv a) =
       match alg_invert al (sv_core x) STwo with
-      | Ok w => inr (VPtr (SVal (wval w) (sv_num x) (sv_den x)))
+      | Ok w => inr (VPtr (SVal (wval w) (sv_num x) (sv_den x) (sv_div x)))
       | Err er => inl (PExn er)
       end.
 Proof. first [exact: invert_uses_own_algebra | by move=> *; exact: invert_uses_own_algebra | by intros; eapply invert_uses_own_algebra; eauto]. Qed.
